@@ -16,6 +16,7 @@ ID = "C19"
 CFG_TIMEOUT_S = {"quick": 600, "thorough": 1800}
 MAX_PATHS = 20000
 CONCRETE_WATCHDOG_S = 20
+OBL_TIMEOUT_MS = 90000
 F = Fraction
 
 META = dict(
